@@ -64,7 +64,7 @@ def suite(d):
         if rc == 0:
             return True, ""
         fails = re.findall(r"^--- FAIL: (\S+)", out, flags=re.M)
-        if set(fails) - {"TestFrameCodecFuzz"}:
+        if set(fails) - {"TestFrameCodecFuzz", "TestConcurrentReadersAndWriter"}:  # the second: a 30 s wall-clock test, fails on a loaded machine
             return False, out[-2000:]
     return False, out[-2000:]
 
